@@ -17,6 +17,7 @@ type c12Store struct {
 	dead     bool
 	faulted  bool
 	maxSaved map[string]Offset // highest offset ever saved per id
+	chunk    int               // > 0: a page never holds more than chunk events
 }
 
 func (s *c12Store) step() (fail bool) {
@@ -51,6 +52,9 @@ func (s *c12Store) Append(ctx context.Context, e *Event) (Offset, error) {
 func (s *c12Store) Read(ctx context.Context, from Offset, limit int) ([]*StoredEvent, Offset, error) {
 	if s.step() {
 		return nil, from, errInjected
+	}
+	if s.chunk > 0 && (limit <= 0 || limit > s.chunk) {
+		limit = s.chunk
 	}
 	evs, next, err := s.inner.Read(ctx, from, limit)
 	s.after()
@@ -185,7 +189,7 @@ func (w *c12World) redeliveredBeforeSave(id, n int) bool { return false }
 
 func c12History(H int, faults bool) {
 	w := &c12World{ids: [2]string{"sub-a", "sub-b"}}
-	w.st = &c12Store{inner: NewMemoryStore(), failAt: -1, crashAt: -1, maxSaved: map[string]Offset{}}
+	w.st = &c12Store{inner: NewMemoryStore(), failAt: -1, crashAt: -1, maxSaved: map[string]Offset{}, chunk: vInt(0, 1)}
 	if faults {
 		if vBool() {
 			w.st.failAt = vInt(0, 6*H)
@@ -307,4 +311,54 @@ func harnessC12ConcurrentPublisher() {
 		vAssertK(c <= 1, "exactly-once-without-faults", "KF-C12-live-offset-is-bus-wide", true)
 	}
 	vCover("interleaved")
+}
+
+// c12SafeStore is a thread-safe wrapper that watches saved offsets.
+type c12SafeStore struct {
+	*MemoryStore
+	mu sync.Mutex
+}
+
+func (s *c12SafeStore) SaveOffset(ctx context.Context, id string, o Offset) error {
+	s.mu.Lock()
+	defer s.mu.Unlock()
+	prev, _ := s.MemoryStore.LoadOffset(ctx, id)
+	vAssertK(!(o < prev), "saved-offset-never-decreases", "KF-C12-concurrent-save-regress", true)
+	return s.MemoryStore.SaveOffset(ctx, id, o)
+}
+
+//verif:entry property=C12 tier=both bounds="a live replay subscription and G concurrent publishers of the subscribed type on the memory stores; every interleaving within the preemption bound; the saved offset must never move backwards and ends at the last event" cover="raced" G_quick=2 G_thorough=2 preempt_quick=2 preempt_thorough=3 race=on
+func harnessC12ConcurrentLive() {
+	G := vParam("G", 2)
+	st := &c12SafeStore{MemoryStore: NewMemoryStore()}
+	bus := New(WithStore(st))
+	var mu sync.Mutex
+	var dels []int
+	vAssert(SubscribeWithReplay(context.Background(), bus, "sub", func(e evA) {
+		mu.Lock()
+		dels = append(dels, e.N)
+		mu.Unlock()
+	}) == nil, "subscribe-ok")
+	var wg sync.WaitGroup
+	for g := 0; g < G; g++ {
+		wg.Add(1)
+		n := g + 1
+		go func() {
+			defer wg.Done()
+			Publish(bus, evA{N: n})
+		}()
+	}
+	wg.Wait()
+	vJoinAll()
+	vAssert(len(dels) == G, "every-event-delivered-once")
+	evs, _, _ := st.Read(context.Background(), OffsetOldest, 0)
+	saved, _ := st.LoadOffset(context.Background(), "sub")
+	vAssert(len(evs) == G, "all-persisted")
+	vAssertK(saved == evs[G-1].Offset, "saved-offset-ends-at-last-event", "KF-C12-concurrent-save-regress", true)
+	// the bus's own notion of the last appended offset is exact once publishers are quiescent
+	bus.storeMu.RLock()
+	last := bus.lastOffset
+	bus.storeMu.RUnlock()
+	vAssert(last == evs[G-1].Offset, "bus-last-offset-is-last-appended")
+	vCover("raced")
 }
